@@ -6,7 +6,7 @@
    (Maven's rules R1-R9, independent of the model).  XML decoding is outside the model; the real
    Maven binary is tied only through the transcribed specification. *)
 From DepsDev Require Import Lib.Base Gen.PomTables Maven.Pom Maven.Interp Maven.Project Maven.Witnesses.
-From DepsDev Require Maven.Interp_proofs Maven.Project_proofs Maven.Imports_proofs Maven.Pipeline_proofs.
+From DepsDev Require Maven.Interp_proofs Maven.Project_proofs Maven.Imports_proofs Maven.Pipeline_proofs Maven.Total_proofs.
 From DepsDev Require Spec.MavenModelSpec.
 
 (* ================= termination clause: ALL property tables, ALL strings ================= *)
@@ -83,6 +83,87 @@ Example C15_empty_value_is_defined :
   MavenModelSpec.resolve [([99;108], [])] [50;36;123;99;108;125;45] = ([50;45], true) /\
   interpolate_string [] [50;36;123;99;108;125;45] = Ok ([50;36;123;99;108;125;45], false).
 Proof. exact Pipeline_proofs.empty_value_is_defined. Qed.
+
+(* ================= totality of the whole pipeline (the POM part of C04) ================= *)
+(* Every stage of the model returns a value or an error: no panic, and no fuel to run out of.
+   There is no fuel for a caller to choose: interpolation supplies its own bound S(size dict)
+   (C15_interp_terminates: the resolving set holds pairwise different keys of the dictionary);
+   the import loop recurses on the rounds left of MaxImports and the parent loop on the rounds
+   left of MaxParent / MaxMavenParent, both read from the sources by gotables
+   (Gen/PomTables.v); the stage theorems hold for EVERY value of those limits.
+   The one assumption: the JDK clause of Profile.activated (the Maven version-constraint code, a
+   parameter of the model) itself returns a value or an error - the version-constraint part of C04. *)
+
+(* the documented pipeline, for all settings, repositories (parent and BOM lookups) and projects *)
+Theorem C15_pipeline_total : forall (jdk_matches : bytes -> bytes -> res bool) jdk os (repo : list project) (root : project),
+  (forall spec v, match jdk_matches spec v with Panic _ => False | OutOfFuel => False | _ => True end) ->
+  match effective jdk_matches jdk os repo root with Panic _ => False | OutOfFuel => False | _ => True end.
+Proof. exact Total_proofs.pipeline_total. Qed.
+Print Assumptions C15_pipeline_total.
+
+(* when no profile of the lineage states a jdk condition the constraint code is never consulted:
+   total with no assumption at all, whatever that code does *)
+Theorem C15_pipeline_total_no_jdk : forall (jdk_matches : bytes -> bytes -> res bool) jdk os repo root,
+  Total_proofs.no_jdk_clause (p_profiles root) ->
+  (forall p, In p repo -> Total_proofs.no_jdk_clause (p_profiles p)) ->
+  match effective jdk_matches jdk os repo root with Panic _ => False | OutOfFuel => False | _ => True end.
+Proof. exact Total_proofs.pipeline_total_no_jdk. Qed.
+Print Assumptions C15_pipeline_total_no_jdk.
+
+(* Profile.activated: total on every JDK string, OS setting and profile (a malformed version range
+   is the constraint code's error, passed on as an error) ... *)
+Theorem C15_activated_total : forall (jdk_matches : bytes -> bytes -> res bool),
+  (forall spec v, Total_proofs.settled (jdk_matches spec v)) ->
+  forall jdk os pf, Total_proofs.settled (activated jdk_matches jdk os pf).
+Proof. exact Total_proofs.activated_settled. Qed.
+Print Assumptions C15_activated_total.
+
+(* ... and always a boolean when the profile has no jdk clause *)
+Theorem C15_activated_without_jdk : forall (jdk_matches : bytes -> bytes -> res bool) jdk os pf,
+  act_jdk (pf_act pf) = [] -> exists b, activated jdk_matches jdk os pf = Ok b.
+Proof. exact Total_proofs.activated_without_jdk. Qed.
+Print Assumptions C15_activated_without_jdk.
+
+(* MergeProfiles: the merged project or the activation error *)
+Theorem C15_merge_profiles_total : forall (jdk_matches : bytes -> bytes -> res bool),
+  (forall spec v, Total_proofs.settled (jdk_matches spec v)) ->
+  forall jdk os p, Total_proofs.settled (merge_profiles jdk_matches jdk os p).
+Proof. exact Total_proofs.merge_profiles_settled. Qed.
+Print Assumptions C15_merge_profiles_total.
+
+(* Project.Interpolate always returns a project (its error result is never used) *)
+Theorem C15_interpolate_total : forall p : project, exists q, interpolate p = Ok q.
+Proof. exact Total_proofs.interpolate_returns. Qed.
+Print Assumptions C15_interpolate_total.
+
+(* mergeParents: for every repository, start key, visited set and EVERY number of rounds *)
+Theorem C15_merge_parents_total : forall (jdk_matches : bytes -> bytes -> res bool),
+  (forall spec v, Total_proofs.settled (jdk_matches spec v)) ->
+  forall jdk os repo rounds chk current visited result,
+    Total_proofs.settled (merge_parents jdk_matches jdk os repo rounds chk current visited result).
+Proof. exact Total_proofs.merge_parents_settled. Qed.
+Print Assumptions C15_merge_parents_total.
+
+(* ProcessDependencies: for EVERY lookup of dependency management that returns a value or an error
+   - cyclic imports, a BOM importing itself, failing imports - the two lists, always *)
+Theorem C15_process_dependencies_total : forall (get : bytes -> bytes -> bytes -> res (list dependency)),
+  (forall g a v, Total_proofs.settled (get g a v)) ->
+  forall p : project, exists r, process_dependencies get p = Ok r.
+Proof. exact Total_proofs.process_dependencies_returns. Qed.
+Print Assumptions C15_process_dependencies_total.
+
+(* ... because the loop ends after at most cap rounds, for every cap: it never looks up more
+   than cap projects (cap = MaxImports in ProcessDependencies) *)
+Theorem C15_import_loop_total : forall (get : bytes -> bytes -> bytes -> res (list dependency)),
+  (forall g a v, Total_proofs.settled (get g a v)) ->
+  forall cap queue imported m, exists m', import_loop get cap queue imported m = Ok m'.
+Proof. exact Total_proofs.import_loop_returns. Qed.
+Print Assumptions C15_import_loop_total.
+
+Theorem C15_import_lookups_bounded : forall get cap queue imported m,
+  (Total_proofs.import_lookups get cap queue imported m <= cap)%nat.
+Proof. exact Total_proofs.import_lookups_bounded. Qed.
+Print Assumptions C15_import_lookups_bounded.
 
 (* ================= refinement of Maven's rules, piece by piece ================= *)
 
